@@ -178,7 +178,8 @@ Ltac conv_cbn :=
   cbn [convert convert_steps pnorm ssize zsize ssigned gsteps gbind ginst gret fst snd cs_op cs_cls cs_a1 step1
        Z.eqb Pos.eqb Z.leb Z.ltb Z.compare Pos.compare Pos.compare_cont app qbase] in *.
 
-Theorem convert_correct fo dst src env m l n x v :
+Definition conv_stmt (dst src : sty) : Prop :=
+  forall fo env m l n x v,
   intlike dst = true -> intlike src = true -> ref_lt n l ->
   read env (qbase src) l = Ok x -> 0 <= x < modk (qbase src) ->
   repr src v x -> c_in_range src v ->
@@ -190,9 +191,11 @@ Theorem convert_correct fo dst src env m l n x v :
     agree_below n env env' /\
     ref_lt (snd (convert dst src l n)) (fst (fst (convert dst src l n))) /\
     (n <= snd (convert dst src l n))%positive.
+
+Lemma conv_i1s src : conv_stmt (SInt I1 true) src.
 Proof.
-  intros ID IS Ll R Rx E Rv.
-  conv_types dst src; conv_cbn.
+  intros fo env m l n x v ID IS Ll R Rx E Rv.
+  destruct src as [[] []| | | |]; try discriminate; conv_cbn.
   all: try match goal with
   | |- context [exec _ _ []] =>
       (* no instruction: narrowing or same size *)
@@ -245,6 +248,528 @@ Proof.
   end.
 Qed.
 
+Lemma conv_i1u src : conv_stmt (SInt I1 false) src.
+Proof.
+  intros fo env m l n x v ID IS Ll R Rx E Rv.
+  destruct src as [[] []| | | |]; try discriminate; conv_cbn.
+  all: try match goal with
+  | |- context [exec _ _ []] =>
+      (* no instruction: narrowing or same size *)
+      first
+      [ solve [ exists env, x; repeat split; try assumption; try apply agree_refl; try lia;
+          apply (fun a b c => repr_narrow _ _ _ _ a b c E); [discriminate|reflexivity|cbv; congruence] ]
+      | solve [ exists env, (x mod two32); repeat split; try (apply read_l_as_w; assumption);
+          try apply mod_two32_range; try apply agree_refl; try assumption; try lia;
+          apply repr_mod32; [cbv; congruence|];
+          apply (fun a b c => repr_narrow _ _ _ _ a b c E); [discriminate|reflexivity|cbv; congruence] ] ]
+  end.
+  all: try match goal with
+  | |- context [exec _ _ (cons (Iop (Some (_, ?kk)) (Oext ?e) _ None) nil)] =>
+      let t := match type of E with repr ?t _ _ => t end in
+      eapply (one_inst fo env m n kk (Oext e) l None (ext_val e kk x) (fun x' => repr _ (c_convert _ v) x'));
+      [ exact I
+      | apply eval_ext; [exact R|reflexivity|try reflexivity; exact I]
+      | apply ext_range; [reflexivity|exact Rx]
+      | apply repr_of_value with (k := kk); [discriminate|reflexivity|cbv; congruence|];
+        first
+        [ (* signed source *)
+          apply (ext_signed_val t v x kk e eq_refl Rv E); reflexivity
+        | (* unsigned source, extub / extuh *)
+          refine (ext_unsigned_val t v x kk eq_refl Rv E _); cbv; congruence
+        | (* extuw *)
+          rewrite <- (ext_unsigned_val t v x kk eq_refl Rv E ltac:(cbv; congruence));
+          symmetry; apply wrap_id; exact Rx ] ]
+  end.
+  (* to _Bool through an unsigned extension and a comparison with zero *)
+  all: try match goal with
+  | |- context [exec _ _ (cons (Iop (Some (_, Kw)) (Oext ?e) _ None) (cons _ nil))] =>
+      let t := match type of E with repr ?t _ _ => t end in
+      eapply (two_inst fo env m n Kw (Oext e) l None (ext_val e Kw x) Kw (Ocmpi false Cne) (Some (RInt 0))
+                (Qbe.b2z (eval_cmpi Cne Kw (ext_val e Kw x) 0)) (fun x' => repr SBool (c_convert SBool v) x'));
+      [ exact I
+      | apply eval_ext; [exact R|reflexivity|exact I]
+      | exact I
+      | apply (eval_cmpi_inst fo _ false Cne Kw (RTmp n) (RInt 0) (ext_val e Kw x) 0); [apply read_gss|reflexivity|reflexivity]
+      | apply b2z_range
+      | apply (bool_cell t v x (ext_val e Kw x) Kw eq_refl Rv E); reflexivity ]
+  | |- context [exec _ _ (cons (Iop (Some (_, Kw)) (Ocmpi ?w Cne) _ _) nil)] =>
+      let t := match type of E with repr ?t _ _ => t end in
+      let ko := constr:(if w then Kl else Kw) in
+      eapply (one_inst fo env m n Kw (Ocmpi w Cne) l (Some (RInt 0)) (Qbe.b2z (eval_cmpi Cne ko x 0))
+                (fun x' => repr SBool (c_convert SBool v) x'));
+      [ exact I
+      | apply (eval_cmpi_inst fo env w Cne Kw l (RInt 0) x 0); [exact R|reflexivity|reflexivity]
+      | apply b2z_range
+      | apply (bool_cell t v x x ko eq_refl Rv E); symmetry; apply wrap_id; exact Rx ]
+  end.
+Qed.
+
+Lemma conv_i2s src : conv_stmt (SInt I2 true) src.
+Proof.
+  intros fo env m l n x v ID IS Ll R Rx E Rv.
+  destruct src as [[] []| | | |]; try discriminate; conv_cbn.
+  all: try match goal with
+  | |- context [exec _ _ []] =>
+      (* no instruction: narrowing or same size *)
+      first
+      [ solve [ exists env, x; repeat split; try assumption; try apply agree_refl; try lia;
+          apply (fun a b c => repr_narrow _ _ _ _ a b c E); [discriminate|reflexivity|cbv; congruence] ]
+      | solve [ exists env, (x mod two32); repeat split; try (apply read_l_as_w; assumption);
+          try apply mod_two32_range; try apply agree_refl; try assumption; try lia;
+          apply repr_mod32; [cbv; congruence|];
+          apply (fun a b c => repr_narrow _ _ _ _ a b c E); [discriminate|reflexivity|cbv; congruence] ] ]
+  end.
+  all: try match goal with
+  | |- context [exec _ _ (cons (Iop (Some (_, ?kk)) (Oext ?e) _ None) nil)] =>
+      let t := match type of E with repr ?t _ _ => t end in
+      eapply (one_inst fo env m n kk (Oext e) l None (ext_val e kk x) (fun x' => repr _ (c_convert _ v) x'));
+      [ exact I
+      | apply eval_ext; [exact R|reflexivity|try reflexivity; exact I]
+      | apply ext_range; [reflexivity|exact Rx]
+      | apply repr_of_value with (k := kk); [discriminate|reflexivity|cbv; congruence|];
+        first
+        [ (* signed source *)
+          apply (ext_signed_val t v x kk e eq_refl Rv E); reflexivity
+        | (* unsigned source, extub / extuh *)
+          refine (ext_unsigned_val t v x kk eq_refl Rv E _); cbv; congruence
+        | (* extuw *)
+          rewrite <- (ext_unsigned_val t v x kk eq_refl Rv E ltac:(cbv; congruence));
+          symmetry; apply wrap_id; exact Rx ] ]
+  end.
+  (* to _Bool through an unsigned extension and a comparison with zero *)
+  all: try match goal with
+  | |- context [exec _ _ (cons (Iop (Some (_, Kw)) (Oext ?e) _ None) (cons _ nil))] =>
+      let t := match type of E with repr ?t _ _ => t end in
+      eapply (two_inst fo env m n Kw (Oext e) l None (ext_val e Kw x) Kw (Ocmpi false Cne) (Some (RInt 0))
+                (Qbe.b2z (eval_cmpi Cne Kw (ext_val e Kw x) 0)) (fun x' => repr SBool (c_convert SBool v) x'));
+      [ exact I
+      | apply eval_ext; [exact R|reflexivity|exact I]
+      | exact I
+      | apply (eval_cmpi_inst fo _ false Cne Kw (RTmp n) (RInt 0) (ext_val e Kw x) 0); [apply read_gss|reflexivity|reflexivity]
+      | apply b2z_range
+      | apply (bool_cell t v x (ext_val e Kw x) Kw eq_refl Rv E); reflexivity ]
+  | |- context [exec _ _ (cons (Iop (Some (_, Kw)) (Ocmpi ?w Cne) _ _) nil)] =>
+      let t := match type of E with repr ?t _ _ => t end in
+      let ko := constr:(if w then Kl else Kw) in
+      eapply (one_inst fo env m n Kw (Ocmpi w Cne) l (Some (RInt 0)) (Qbe.b2z (eval_cmpi Cne ko x 0))
+                (fun x' => repr SBool (c_convert SBool v) x'));
+      [ exact I
+      | apply (eval_cmpi_inst fo env w Cne Kw l (RInt 0) x 0); [exact R|reflexivity|reflexivity]
+      | apply b2z_range
+      | apply (bool_cell t v x x ko eq_refl Rv E); symmetry; apply wrap_id; exact Rx ]
+  end.
+Qed.
+
+Lemma conv_i2u src : conv_stmt (SInt I2 false) src.
+Proof.
+  intros fo env m l n x v ID IS Ll R Rx E Rv.
+  destruct src as [[] []| | | |]; try discriminate; conv_cbn.
+  all: try match goal with
+  | |- context [exec _ _ []] =>
+      (* no instruction: narrowing or same size *)
+      first
+      [ solve [ exists env, x; repeat split; try assumption; try apply agree_refl; try lia;
+          apply (fun a b c => repr_narrow _ _ _ _ a b c E); [discriminate|reflexivity|cbv; congruence] ]
+      | solve [ exists env, (x mod two32); repeat split; try (apply read_l_as_w; assumption);
+          try apply mod_two32_range; try apply agree_refl; try assumption; try lia;
+          apply repr_mod32; [cbv; congruence|];
+          apply (fun a b c => repr_narrow _ _ _ _ a b c E); [discriminate|reflexivity|cbv; congruence] ] ]
+  end.
+  all: try match goal with
+  | |- context [exec _ _ (cons (Iop (Some (_, ?kk)) (Oext ?e) _ None) nil)] =>
+      let t := match type of E with repr ?t _ _ => t end in
+      eapply (one_inst fo env m n kk (Oext e) l None (ext_val e kk x) (fun x' => repr _ (c_convert _ v) x'));
+      [ exact I
+      | apply eval_ext; [exact R|reflexivity|try reflexivity; exact I]
+      | apply ext_range; [reflexivity|exact Rx]
+      | apply repr_of_value with (k := kk); [discriminate|reflexivity|cbv; congruence|];
+        first
+        [ (* signed source *)
+          apply (ext_signed_val t v x kk e eq_refl Rv E); reflexivity
+        | (* unsigned source, extub / extuh *)
+          refine (ext_unsigned_val t v x kk eq_refl Rv E _); cbv; congruence
+        | (* extuw *)
+          rewrite <- (ext_unsigned_val t v x kk eq_refl Rv E ltac:(cbv; congruence));
+          symmetry; apply wrap_id; exact Rx ] ]
+  end.
+  (* to _Bool through an unsigned extension and a comparison with zero *)
+  all: try match goal with
+  | |- context [exec _ _ (cons (Iop (Some (_, Kw)) (Oext ?e) _ None) (cons _ nil))] =>
+      let t := match type of E with repr ?t _ _ => t end in
+      eapply (two_inst fo env m n Kw (Oext e) l None (ext_val e Kw x) Kw (Ocmpi false Cne) (Some (RInt 0))
+                (Qbe.b2z (eval_cmpi Cne Kw (ext_val e Kw x) 0)) (fun x' => repr SBool (c_convert SBool v) x'));
+      [ exact I
+      | apply eval_ext; [exact R|reflexivity|exact I]
+      | exact I
+      | apply (eval_cmpi_inst fo _ false Cne Kw (RTmp n) (RInt 0) (ext_val e Kw x) 0); [apply read_gss|reflexivity|reflexivity]
+      | apply b2z_range
+      | apply (bool_cell t v x (ext_val e Kw x) Kw eq_refl Rv E); reflexivity ]
+  | |- context [exec _ _ (cons (Iop (Some (_, Kw)) (Ocmpi ?w Cne) _ _) nil)] =>
+      let t := match type of E with repr ?t _ _ => t end in
+      let ko := constr:(if w then Kl else Kw) in
+      eapply (one_inst fo env m n Kw (Ocmpi w Cne) l (Some (RInt 0)) (Qbe.b2z (eval_cmpi Cne ko x 0))
+                (fun x' => repr SBool (c_convert SBool v) x'));
+      [ exact I
+      | apply (eval_cmpi_inst fo env w Cne Kw l (RInt 0) x 0); [exact R|reflexivity|reflexivity]
+      | apply b2z_range
+      | apply (bool_cell t v x x ko eq_refl Rv E); symmetry; apply wrap_id; exact Rx ]
+  end.
+Qed.
+
+Lemma conv_i4s src : conv_stmt (SInt I4 true) src.
+Proof.
+  intros fo env m l n x v ID IS Ll R Rx E Rv.
+  destruct src as [[] []| | | |]; try discriminate; conv_cbn.
+  all: try match goal with
+  | |- context [exec _ _ []] =>
+      (* no instruction: narrowing or same size *)
+      first
+      [ solve [ exists env, x; repeat split; try assumption; try apply agree_refl; try lia;
+          apply (fun a b c => repr_narrow _ _ _ _ a b c E); [discriminate|reflexivity|cbv; congruence] ]
+      | solve [ exists env, (x mod two32); repeat split; try (apply read_l_as_w; assumption);
+          try apply mod_two32_range; try apply agree_refl; try assumption; try lia;
+          apply repr_mod32; [cbv; congruence|];
+          apply (fun a b c => repr_narrow _ _ _ _ a b c E); [discriminate|reflexivity|cbv; congruence] ] ]
+  end.
+  all: try match goal with
+  | |- context [exec _ _ (cons (Iop (Some (_, ?kk)) (Oext ?e) _ None) nil)] =>
+      let t := match type of E with repr ?t _ _ => t end in
+      eapply (one_inst fo env m n kk (Oext e) l None (ext_val e kk x) (fun x' => repr _ (c_convert _ v) x'));
+      [ exact I
+      | apply eval_ext; [exact R|reflexivity|try reflexivity; exact I]
+      | apply ext_range; [reflexivity|exact Rx]
+      | apply repr_of_value with (k := kk); [discriminate|reflexivity|cbv; congruence|];
+        first
+        [ (* signed source *)
+          apply (ext_signed_val t v x kk e eq_refl Rv E); reflexivity
+        | (* unsigned source, extub / extuh *)
+          refine (ext_unsigned_val t v x kk eq_refl Rv E _); cbv; congruence
+        | (* extuw *)
+          rewrite <- (ext_unsigned_val t v x kk eq_refl Rv E ltac:(cbv; congruence));
+          symmetry; apply wrap_id; exact Rx ] ]
+  end.
+  (* to _Bool through an unsigned extension and a comparison with zero *)
+  all: try match goal with
+  | |- context [exec _ _ (cons (Iop (Some (_, Kw)) (Oext ?e) _ None) (cons _ nil))] =>
+      let t := match type of E with repr ?t _ _ => t end in
+      eapply (two_inst fo env m n Kw (Oext e) l None (ext_val e Kw x) Kw (Ocmpi false Cne) (Some (RInt 0))
+                (Qbe.b2z (eval_cmpi Cne Kw (ext_val e Kw x) 0)) (fun x' => repr SBool (c_convert SBool v) x'));
+      [ exact I
+      | apply eval_ext; [exact R|reflexivity|exact I]
+      | exact I
+      | apply (eval_cmpi_inst fo _ false Cne Kw (RTmp n) (RInt 0) (ext_val e Kw x) 0); [apply read_gss|reflexivity|reflexivity]
+      | apply b2z_range
+      | apply (bool_cell t v x (ext_val e Kw x) Kw eq_refl Rv E); reflexivity ]
+  | |- context [exec _ _ (cons (Iop (Some (_, Kw)) (Ocmpi ?w Cne) _ _) nil)] =>
+      let t := match type of E with repr ?t _ _ => t end in
+      let ko := constr:(if w then Kl else Kw) in
+      eapply (one_inst fo env m n Kw (Ocmpi w Cne) l (Some (RInt 0)) (Qbe.b2z (eval_cmpi Cne ko x 0))
+                (fun x' => repr SBool (c_convert SBool v) x'));
+      [ exact I
+      | apply (eval_cmpi_inst fo env w Cne Kw l (RInt 0) x 0); [exact R|reflexivity|reflexivity]
+      | apply b2z_range
+      | apply (bool_cell t v x x ko eq_refl Rv E); symmetry; apply wrap_id; exact Rx ]
+  end.
+Qed.
+
+Lemma conv_i4u src : conv_stmt (SInt I4 false) src.
+Proof.
+  intros fo env m l n x v ID IS Ll R Rx E Rv.
+  destruct src as [[] []| | | |]; try discriminate; conv_cbn.
+  all: try match goal with
+  | |- context [exec _ _ []] =>
+      (* no instruction: narrowing or same size *)
+      first
+      [ solve [ exists env, x; repeat split; try assumption; try apply agree_refl; try lia;
+          apply (fun a b c => repr_narrow _ _ _ _ a b c E); [discriminate|reflexivity|cbv; congruence] ]
+      | solve [ exists env, (x mod two32); repeat split; try (apply read_l_as_w; assumption);
+          try apply mod_two32_range; try apply agree_refl; try assumption; try lia;
+          apply repr_mod32; [cbv; congruence|];
+          apply (fun a b c => repr_narrow _ _ _ _ a b c E); [discriminate|reflexivity|cbv; congruence] ] ]
+  end.
+  all: try match goal with
+  | |- context [exec _ _ (cons (Iop (Some (_, ?kk)) (Oext ?e) _ None) nil)] =>
+      let t := match type of E with repr ?t _ _ => t end in
+      eapply (one_inst fo env m n kk (Oext e) l None (ext_val e kk x) (fun x' => repr _ (c_convert _ v) x'));
+      [ exact I
+      | apply eval_ext; [exact R|reflexivity|try reflexivity; exact I]
+      | apply ext_range; [reflexivity|exact Rx]
+      | apply repr_of_value with (k := kk); [discriminate|reflexivity|cbv; congruence|];
+        first
+        [ (* signed source *)
+          apply (ext_signed_val t v x kk e eq_refl Rv E); reflexivity
+        | (* unsigned source, extub / extuh *)
+          refine (ext_unsigned_val t v x kk eq_refl Rv E _); cbv; congruence
+        | (* extuw *)
+          rewrite <- (ext_unsigned_val t v x kk eq_refl Rv E ltac:(cbv; congruence));
+          symmetry; apply wrap_id; exact Rx ] ]
+  end.
+  (* to _Bool through an unsigned extension and a comparison with zero *)
+  all: try match goal with
+  | |- context [exec _ _ (cons (Iop (Some (_, Kw)) (Oext ?e) _ None) (cons _ nil))] =>
+      let t := match type of E with repr ?t _ _ => t end in
+      eapply (two_inst fo env m n Kw (Oext e) l None (ext_val e Kw x) Kw (Ocmpi false Cne) (Some (RInt 0))
+                (Qbe.b2z (eval_cmpi Cne Kw (ext_val e Kw x) 0)) (fun x' => repr SBool (c_convert SBool v) x'));
+      [ exact I
+      | apply eval_ext; [exact R|reflexivity|exact I]
+      | exact I
+      | apply (eval_cmpi_inst fo _ false Cne Kw (RTmp n) (RInt 0) (ext_val e Kw x) 0); [apply read_gss|reflexivity|reflexivity]
+      | apply b2z_range
+      | apply (bool_cell t v x (ext_val e Kw x) Kw eq_refl Rv E); reflexivity ]
+  | |- context [exec _ _ (cons (Iop (Some (_, Kw)) (Ocmpi ?w Cne) _ _) nil)] =>
+      let t := match type of E with repr ?t _ _ => t end in
+      let ko := constr:(if w then Kl else Kw) in
+      eapply (one_inst fo env m n Kw (Ocmpi w Cne) l (Some (RInt 0)) (Qbe.b2z (eval_cmpi Cne ko x 0))
+                (fun x' => repr SBool (c_convert SBool v) x'));
+      [ exact I
+      | apply (eval_cmpi_inst fo env w Cne Kw l (RInt 0) x 0); [exact R|reflexivity|reflexivity]
+      | apply b2z_range
+      | apply (bool_cell t v x x ko eq_refl Rv E); symmetry; apply wrap_id; exact Rx ]
+  end.
+Qed.
+
+Lemma conv_i8s src : conv_stmt (SInt I8 true) src.
+Proof.
+  intros fo env m l n x v ID IS Ll R Rx E Rv.
+  destruct src as [[] []| | | |]; try discriminate; conv_cbn.
+  all: try match goal with
+  | |- context [exec _ _ []] =>
+      (* no instruction: narrowing or same size *)
+      first
+      [ solve [ exists env, x; repeat split; try assumption; try apply agree_refl; try lia;
+          apply (fun a b c => repr_narrow _ _ _ _ a b c E); [discriminate|reflexivity|cbv; congruence] ]
+      | solve [ exists env, (x mod two32); repeat split; try (apply read_l_as_w; assumption);
+          try apply mod_two32_range; try apply agree_refl; try assumption; try lia;
+          apply repr_mod32; [cbv; congruence|];
+          apply (fun a b c => repr_narrow _ _ _ _ a b c E); [discriminate|reflexivity|cbv; congruence] ] ]
+  end.
+  all: try match goal with
+  | |- context [exec _ _ (cons (Iop (Some (_, ?kk)) (Oext ?e) _ None) nil)] =>
+      let t := match type of E with repr ?t _ _ => t end in
+      eapply (one_inst fo env m n kk (Oext e) l None (ext_val e kk x) (fun x' => repr _ (c_convert _ v) x'));
+      [ exact I
+      | apply eval_ext; [exact R|reflexivity|try reflexivity; exact I]
+      | apply ext_range; [reflexivity|exact Rx]
+      | apply repr_of_value with (k := kk); [discriminate|reflexivity|cbv; congruence|];
+        first
+        [ (* signed source *)
+          apply (ext_signed_val t v x kk e eq_refl Rv E); reflexivity
+        | (* unsigned source, extub / extuh *)
+          refine (ext_unsigned_val t v x kk eq_refl Rv E _); cbv; congruence
+        | (* extuw *)
+          rewrite <- (ext_unsigned_val t v x kk eq_refl Rv E ltac:(cbv; congruence));
+          symmetry; apply wrap_id; exact Rx ] ]
+  end.
+  (* to _Bool through an unsigned extension and a comparison with zero *)
+  all: try match goal with
+  | |- context [exec _ _ (cons (Iop (Some (_, Kw)) (Oext ?e) _ None) (cons _ nil))] =>
+      let t := match type of E with repr ?t _ _ => t end in
+      eapply (two_inst fo env m n Kw (Oext e) l None (ext_val e Kw x) Kw (Ocmpi false Cne) (Some (RInt 0))
+                (Qbe.b2z (eval_cmpi Cne Kw (ext_val e Kw x) 0)) (fun x' => repr SBool (c_convert SBool v) x'));
+      [ exact I
+      | apply eval_ext; [exact R|reflexivity|exact I]
+      | exact I
+      | apply (eval_cmpi_inst fo _ false Cne Kw (RTmp n) (RInt 0) (ext_val e Kw x) 0); [apply read_gss|reflexivity|reflexivity]
+      | apply b2z_range
+      | apply (bool_cell t v x (ext_val e Kw x) Kw eq_refl Rv E); reflexivity ]
+  | |- context [exec _ _ (cons (Iop (Some (_, Kw)) (Ocmpi ?w Cne) _ _) nil)] =>
+      let t := match type of E with repr ?t _ _ => t end in
+      let ko := constr:(if w then Kl else Kw) in
+      eapply (one_inst fo env m n Kw (Ocmpi w Cne) l (Some (RInt 0)) (Qbe.b2z (eval_cmpi Cne ko x 0))
+                (fun x' => repr SBool (c_convert SBool v) x'));
+      [ exact I
+      | apply (eval_cmpi_inst fo env w Cne Kw l (RInt 0) x 0); [exact R|reflexivity|reflexivity]
+      | apply b2z_range
+      | apply (bool_cell t v x x ko eq_refl Rv E); symmetry; apply wrap_id; exact Rx ]
+  end.
+Qed.
+
+Lemma conv_i8u src : conv_stmt (SInt I8 false) src.
+Proof.
+  intros fo env m l n x v ID IS Ll R Rx E Rv.
+  destruct src as [[] []| | | |]; try discriminate; conv_cbn.
+  all: try match goal with
+  | |- context [exec _ _ []] =>
+      (* no instruction: narrowing or same size *)
+      first
+      [ solve [ exists env, x; repeat split; try assumption; try apply agree_refl; try lia;
+          apply (fun a b c => repr_narrow _ _ _ _ a b c E); [discriminate|reflexivity|cbv; congruence] ]
+      | solve [ exists env, (x mod two32); repeat split; try (apply read_l_as_w; assumption);
+          try apply mod_two32_range; try apply agree_refl; try assumption; try lia;
+          apply repr_mod32; [cbv; congruence|];
+          apply (fun a b c => repr_narrow _ _ _ _ a b c E); [discriminate|reflexivity|cbv; congruence] ] ]
+  end.
+  all: try match goal with
+  | |- context [exec _ _ (cons (Iop (Some (_, ?kk)) (Oext ?e) _ None) nil)] =>
+      let t := match type of E with repr ?t _ _ => t end in
+      eapply (one_inst fo env m n kk (Oext e) l None (ext_val e kk x) (fun x' => repr _ (c_convert _ v) x'));
+      [ exact I
+      | apply eval_ext; [exact R|reflexivity|try reflexivity; exact I]
+      | apply ext_range; [reflexivity|exact Rx]
+      | apply repr_of_value with (k := kk); [discriminate|reflexivity|cbv; congruence|];
+        first
+        [ (* signed source *)
+          apply (ext_signed_val t v x kk e eq_refl Rv E); reflexivity
+        | (* unsigned source, extub / extuh *)
+          refine (ext_unsigned_val t v x kk eq_refl Rv E _); cbv; congruence
+        | (* extuw *)
+          rewrite <- (ext_unsigned_val t v x kk eq_refl Rv E ltac:(cbv; congruence));
+          symmetry; apply wrap_id; exact Rx ] ]
+  end.
+  (* to _Bool through an unsigned extension and a comparison with zero *)
+  all: try match goal with
+  | |- context [exec _ _ (cons (Iop (Some (_, Kw)) (Oext ?e) _ None) (cons _ nil))] =>
+      let t := match type of E with repr ?t _ _ => t end in
+      eapply (two_inst fo env m n Kw (Oext e) l None (ext_val e Kw x) Kw (Ocmpi false Cne) (Some (RInt 0))
+                (Qbe.b2z (eval_cmpi Cne Kw (ext_val e Kw x) 0)) (fun x' => repr SBool (c_convert SBool v) x'));
+      [ exact I
+      | apply eval_ext; [exact R|reflexivity|exact I]
+      | exact I
+      | apply (eval_cmpi_inst fo _ false Cne Kw (RTmp n) (RInt 0) (ext_val e Kw x) 0); [apply read_gss|reflexivity|reflexivity]
+      | apply b2z_range
+      | apply (bool_cell t v x (ext_val e Kw x) Kw eq_refl Rv E); reflexivity ]
+  | |- context [exec _ _ (cons (Iop (Some (_, Kw)) (Ocmpi ?w Cne) _ _) nil)] =>
+      let t := match type of E with repr ?t _ _ => t end in
+      let ko := constr:(if w then Kl else Kw) in
+      eapply (one_inst fo env m n Kw (Ocmpi w Cne) l (Some (RInt 0)) (Qbe.b2z (eval_cmpi Cne ko x 0))
+                (fun x' => repr SBool (c_convert SBool v) x'));
+      [ exact I
+      | apply (eval_cmpi_inst fo env w Cne Kw l (RInt 0) x 0); [exact R|reflexivity|reflexivity]
+      | apply b2z_range
+      | apply (bool_cell t v x x ko eq_refl Rv E); symmetry; apply wrap_id; exact Rx ]
+  end.
+Qed.
+
+Lemma conv_bool src : conv_stmt (SBool) src.
+Proof.
+  intros fo env m l n x v ID IS Ll R Rx E Rv.
+  destruct src as [[] []| | | |]; try discriminate; conv_cbn.
+  all: try match goal with
+  | |- context [exec _ _ []] =>
+      (* no instruction: narrowing or same size *)
+      first
+      [ solve [ exists env, x; repeat split; try assumption; try apply agree_refl; try lia;
+          apply (fun a b c => repr_narrow _ _ _ _ a b c E); [discriminate|reflexivity|cbv; congruence] ]
+      | solve [ exists env, (x mod two32); repeat split; try (apply read_l_as_w; assumption);
+          try apply mod_two32_range; try apply agree_refl; try assumption; try lia;
+          apply repr_mod32; [cbv; congruence|];
+          apply (fun a b c => repr_narrow _ _ _ _ a b c E); [discriminate|reflexivity|cbv; congruence] ] ]
+  end.
+  all: try match goal with
+  | |- context [exec _ _ (cons (Iop (Some (_, ?kk)) (Oext ?e) _ None) nil)] =>
+      let t := match type of E with repr ?t _ _ => t end in
+      eapply (one_inst fo env m n kk (Oext e) l None (ext_val e kk x) (fun x' => repr _ (c_convert _ v) x'));
+      [ exact I
+      | apply eval_ext; [exact R|reflexivity|try reflexivity; exact I]
+      | apply ext_range; [reflexivity|exact Rx]
+      | apply repr_of_value with (k := kk); [discriminate|reflexivity|cbv; congruence|];
+        first
+        [ (* signed source *)
+          apply (ext_signed_val t v x kk e eq_refl Rv E); reflexivity
+        | (* unsigned source, extub / extuh *)
+          refine (ext_unsigned_val t v x kk eq_refl Rv E _); cbv; congruence
+        | (* extuw *)
+          rewrite <- (ext_unsigned_val t v x kk eq_refl Rv E ltac:(cbv; congruence));
+          symmetry; apply wrap_id; exact Rx ] ]
+  end.
+  (* to _Bool through an unsigned extension and a comparison with zero *)
+  all: try match goal with
+  | |- context [exec _ _ (cons (Iop (Some (_, Kw)) (Oext ?e) _ None) (cons _ nil))] =>
+      let t := match type of E with repr ?t _ _ => t end in
+      eapply (two_inst fo env m n Kw (Oext e) l None (ext_val e Kw x) Kw (Ocmpi false Cne) (Some (RInt 0))
+                (Qbe.b2z (eval_cmpi Cne Kw (ext_val e Kw x) 0)) (fun x' => repr SBool (c_convert SBool v) x'));
+      [ exact I
+      | apply eval_ext; [exact R|reflexivity|exact I]
+      | exact I
+      | apply (eval_cmpi_inst fo _ false Cne Kw (RTmp n) (RInt 0) (ext_val e Kw x) 0); [apply read_gss|reflexivity|reflexivity]
+      | apply b2z_range
+      | apply (bool_cell t v x (ext_val e Kw x) Kw eq_refl Rv E); reflexivity ]
+  | |- context [exec _ _ (cons (Iop (Some (_, Kw)) (Ocmpi ?w Cne) _ _) nil)] =>
+      let t := match type of E with repr ?t _ _ => t end in
+      let ko := constr:(if w then Kl else Kw) in
+      eapply (one_inst fo env m n Kw (Ocmpi w Cne) l (Some (RInt 0)) (Qbe.b2z (eval_cmpi Cne ko x 0))
+                (fun x' => repr SBool (c_convert SBool v) x'));
+      [ exact I
+      | apply (eval_cmpi_inst fo env w Cne Kw l (RInt 0) x 0); [exact R|reflexivity|reflexivity]
+      | apply b2z_range
+      | apply (bool_cell t v x x ko eq_refl Rv E); symmetry; apply wrap_id; exact Rx ]
+  end.
+Qed.
+
+Lemma conv_ptr src : conv_stmt (SPtr) src.
+Proof.
+  intros fo env m l n x v ID IS Ll R Rx E Rv.
+  destruct src as [[] []| | | |]; try discriminate; conv_cbn.
+  all: try match goal with
+  | |- context [exec _ _ []] =>
+      (* no instruction: narrowing or same size *)
+      first
+      [ solve [ exists env, x; repeat split; try assumption; try apply agree_refl; try lia;
+          apply (fun a b c => repr_narrow _ _ _ _ a b c E); [discriminate|reflexivity|cbv; congruence] ]
+      | solve [ exists env, (x mod two32); repeat split; try (apply read_l_as_w; assumption);
+          try apply mod_two32_range; try apply agree_refl; try assumption; try lia;
+          apply repr_mod32; [cbv; congruence|];
+          apply (fun a b c => repr_narrow _ _ _ _ a b c E); [discriminate|reflexivity|cbv; congruence] ] ]
+  end.
+  all: try match goal with
+  | |- context [exec _ _ (cons (Iop (Some (_, ?kk)) (Oext ?e) _ None) nil)] =>
+      let t := match type of E with repr ?t _ _ => t end in
+      eapply (one_inst fo env m n kk (Oext e) l None (ext_val e kk x) (fun x' => repr _ (c_convert _ v) x'));
+      [ exact I
+      | apply eval_ext; [exact R|reflexivity|try reflexivity; exact I]
+      | apply ext_range; [reflexivity|exact Rx]
+      | apply repr_of_value with (k := kk); [discriminate|reflexivity|cbv; congruence|];
+        first
+        [ (* signed source *)
+          apply (ext_signed_val t v x kk e eq_refl Rv E); reflexivity
+        | (* unsigned source, extub / extuh *)
+          refine (ext_unsigned_val t v x kk eq_refl Rv E _); cbv; congruence
+        | (* extuw *)
+          rewrite <- (ext_unsigned_val t v x kk eq_refl Rv E ltac:(cbv; congruence));
+          symmetry; apply wrap_id; exact Rx ] ]
+  end.
+  (* to _Bool through an unsigned extension and a comparison with zero *)
+  all: try match goal with
+  | |- context [exec _ _ (cons (Iop (Some (_, Kw)) (Oext ?e) _ None) (cons _ nil))] =>
+      let t := match type of E with repr ?t _ _ => t end in
+      eapply (two_inst fo env m n Kw (Oext e) l None (ext_val e Kw x) Kw (Ocmpi false Cne) (Some (RInt 0))
+                (Qbe.b2z (eval_cmpi Cne Kw (ext_val e Kw x) 0)) (fun x' => repr SBool (c_convert SBool v) x'));
+      [ exact I
+      | apply eval_ext; [exact R|reflexivity|exact I]
+      | exact I
+      | apply (eval_cmpi_inst fo _ false Cne Kw (RTmp n) (RInt 0) (ext_val e Kw x) 0); [apply read_gss|reflexivity|reflexivity]
+      | apply b2z_range
+      | apply (bool_cell t v x (ext_val e Kw x) Kw eq_refl Rv E); reflexivity ]
+  | |- context [exec _ _ (cons (Iop (Some (_, Kw)) (Ocmpi ?w Cne) _ _) nil)] =>
+      let t := match type of E with repr ?t _ _ => t end in
+      let ko := constr:(if w then Kl else Kw) in
+      eapply (one_inst fo env m n Kw (Ocmpi w Cne) l (Some (RInt 0)) (Qbe.b2z (eval_cmpi Cne ko x 0))
+                (fun x' => repr SBool (c_convert SBool v) x'));
+      [ exact I
+      | apply (eval_cmpi_inst fo env w Cne Kw l (RInt 0) x 0); [exact R|reflexivity|reflexivity]
+      | apply b2z_range
+      | apply (bool_cell t v x x ko eq_refl Rv E); symmetry; apply wrap_id; exact Rx ]
+  end.
+Qed.
+
+Theorem convert_correct fo dst src env m l n x v :
+  intlike dst = true -> intlike src = true -> ref_lt n l ->
+  read env (qbase src) l = Ok x -> 0 <= x < modk (qbase src) ->
+  repr src v x -> c_in_range src v ->
+  exists env' x',
+    exec fo (env, m) (snd (fst (convert dst src l n))) = Ok (env', m) /\
+    read env' (qbase dst) (fst (fst (convert dst src l n))) = Ok x' /\
+    0 <= x' < modk (qbase dst) /\
+    repr dst (c_convert dst v) x' /\
+    agree_below n env env' /\
+    ref_lt (snd (convert dst src l n)) (fst (fst (convert dst src l n))) /\
+    (n <= snd (convert dst src l n))%positive.
+Proof.
+  intros ID. revert fo env m l n x v ID. change (conv_stmt dst src).
+  destruct dst as [[] []| | | |]; try (intros; discriminate);
+    first [apply conv_i1s|apply conv_i1u|apply conv_i2s|apply conv_i2u|apply conv_i4s|apply conv_i4u|apply conv_i8s|apply conv_i8u|apply conv_bool|apply conv_ptr].
+Qed.
+
 (* the converted value is a value of the destination type *)
 Theorem convert_range dst v : intlike dst = true -> c_in_range dst (c_convert dst v).
 Proof. apply c_convert_range. Qed.
@@ -260,6 +785,7 @@ Theorem convert_subint_float_not_invariant :
     eval_pure fo (PM.add 1%positive (Kw, x1) (PM.empty _)) (Ocvt Cswtof) Ks (RTmp 1%positive) None <>
     eval_pure fo (PM.add 1%positive (Kw, x2) (PM.empty _)) (Ocvt Cswtof) Ks (RTmp 1%positive) None.
 Proof.
-  intros fo H. exists 300, 44, 44. repeat split; try reflexivity; try (cbv; congruence).
+  intros fo H. exists 300, 44, 44.
+  split; [reflexivity|]. split; [reflexivity|]. split; [cbv; split; congruence|]. split; [reflexivity|].
   unfold eval_pure. rewrite !read_gss. cbn [bind cls_eqb isint negb]. intros [= E]. exact (H E).
 Qed.
